@@ -253,29 +253,46 @@ impl MainEvent {
         let mut trigger_timestamp = None;
         // Need to group chunks by board and chip.
         let mut pwb_chunks_map: HashMap<_, Vec<_>> = HashMap::new();
+        // Channels without signal after calibration stay `None`, so slot
+        // occupancy alone cannot be used to detect duplicates.
+        let mut wire_banks = Vec::new();
+        let mut pad_seen = [[false; TPC_PAD_ROWS]; TPC_PAD_COLUMNS];
 
         for (bank_name, data_slice) in banks {
             match MainEventBankName::try_from(bank_name)? {
                 MainEventBankName::Alpha16(Alpha16BankName::A32(bank_name)) => {
                     let packet = AdcPacket::try_from(data_slice)?;
-                    let waveform = packet.waveform();
-                    if waveform.is_empty() {
-                        continue;
-                    }
-                    // Given that the waveform is not empty, we can safely
-                    // unwrap.
-                    let board_id = packet.board_id().unwrap();
                     let alpha16::ChannelId::A32(channel_id) = packet.channel_id() else {
                         return Err(TryMainEventFromDataBanksError::WireBankWithBvChannel {
                             bank_name,
                         });
                     };
-                    if (bank_name.board_id(), bank_name.channel_id()) != (board_id, channel_id) {
+                    // Suppressed packets do not carry a board_id; the identity
+                    // checks have to be done before skipping them.
+                    let found = (
+                        packet.board_id().unwrap_or(bank_name.board_id()),
+                        channel_id,
+                    );
+                    if (bank_name.board_id(), bank_name.channel_id()) != found {
                         return Err(TryMainEventFromDataBanksError::Alpha16IdMismatch {
                             expected: (bank_name.board_id(), bank_name.channel_id()),
-                            found: (board_id, channel_id),
+                            found,
                         });
                     }
+                    // A wire without signal does not occupy its slot, hence
+                    // duplicates need to be tracked by bank name.
+                    if wire_banks.contains(&bank_name) {
+                        return Err(TryMainEventFromDataBanksError::DuplicateWireBank {
+                            bank_name,
+                        });
+                    }
+                    wire_banks.push(bank_name);
+
+                    let waveform = packet.waveform();
+                    if waveform.is_empty() {
+                        continue;
+                    }
+                    let (board_id, channel_id) = found;
 
                     let wire_position = TpcWirePosition::try_new(run_number, board_id, channel_id)?;
                     let wire_index = usize::from(wire_position);
@@ -339,7 +356,7 @@ impl MainEvent {
                         usize::from(pad_position.column),
                         usize::from(pad_position.row),
                     );
-                    if pad_signals[pad_index.0][pad_index.1].is_some() {
+                    if std::mem::replace(&mut pad_seen[pad_index.0][pad_index.1], true) {
                         return Err(TryMainEventFromDataBanksError::DuplicatePadSignal {
                             position: pad_position,
                         });
